@@ -147,7 +147,8 @@ def quadratic_spline(
     if inverse:
         c_ = c - inputs
         # Cancellation-free form of (-b + sqrt(b^2 - 4ac)) / (2a); also valid when a == 0.
-        alpha = (-2 * c_) / (b + torch.sqrt(b.pow(2) - 4 * a * c_))
+        # The discriminant is the squared density at the root; rounding must not make it negative.
+        alpha = (-2 * c_) / (b + torch.sqrt(torch.clamp(b.pow(2) - 4 * a * c_, min=0)))
         outputs = alpha * input_bin_widths + input_bin_locations
         outputs = torch.clamp(outputs, 0, 1)
         logabsdet = -torch.log(
